@@ -54,6 +54,21 @@ Definition parse (encoding : N -> option decoder) (m : shortmsg) : outcome bytes
   | Some d => d (sm_msg m)
   end.
 
+(* ---------------------------------------------------- CommandStatus.String *)
+(* if name, ok := commandStatusNames[c]; ok { "ESME_R" + upper(name) } else { %08X }: a map lookup, no
+   index expression.  Which codes have a name, and the text printed for them,
+   is data ([named], regenerated from the running code). *)
+Definition hex_digit_up (n : N) : N := if n <? 10 then 48 + n else 55 + n.
+Definition hex8 (s : N) : bytes :=
+  map (fun k => hex_digit_up ((s / 16 ^ k) mod 16)) [7; 6; 5; 4; 3; 2; 1; 0].
+Fixpoint find_name (named : list (N * bytes)) (s : N) : option bytes :=
+  match named with
+  | [] => None
+  | (k, t) :: r => if k =? s then Some t else find_name r s
+  end.
+Definition command_status_string (named : list (N * bytes)) (s : N) : outcome bytes :=
+  match find_name named s with Some t => Ok t | None => Ok (hex8 s) end.
+
 (* ------------------------------------- ReadSequence, ReadCommandStatus, Resp *)
 (* getHeader: the first field that is a Header *)
 Fixpoint get_header (vs : list fval) : option header :=
